@@ -112,11 +112,8 @@ def _dyadic(dy, out):
         out.fail("match-at-tolerance", "nearest image (atom %d, offset %s) lies exactly at the tolerance %.4g: expected %s, got %s" % (best, list(off), tol, want, got), key="match-at-tolerance")
     elif not np.array_equal(np.array(ci[0], float), np.array(off, float)):
         out.fail("match-offset", "image exactly at the tolerance: cell offset %s reported, image has offset %s" % (np.array(ci[0]).tolist(), list(off)), key="match-offset-at-tolerance")
-    ok, res = call(mg.get_matches_simple, at, cl, q[None, :].copy(), [num], tol)
-    if ok:
-        ms = res[0]
-        if (want == "match") != (ms[0] is not None and int(ms[0]) == best):
-            out.fail("simple-at-tolerance", "get_matches_simple: image exactly at the tolerance, expected %s, got %r" % ("atom %d" % best if want == "match" else "no match", ms[0]), key="simple-at-tolerance")
+    # (get_matches_simple is not judged at the exact boundary: it wraps the query through fractional coordinates first, which is
+    # not exact even for these cells - my first version of this stratum raised that as a false alarm at seed 3)
 
 
 def strategy(tier):
